@@ -767,8 +767,10 @@ Definition init_system (locs : list json) : system :=
 Definition check_loc (c : json) : json :=
   let sy := init_system (jfL "locs" c) in
   let a := fold_left step_acc (jfL "ops" c) (mkAcc [] sy 0 None None [] [] 0 false) in
-  let ghost_bad := match jget "ghost_ok" c with Some (JBool false) => true | _ => false end in
-  let multi_load := 1 <? jfZ "stress_loads" c in
+  let ghost_bad := match jget "ghost_ok" c with Some (JBool false) => true | _ => false end ||
+                   (0 <? jfZ "ghost_stress_acks" c) in   (* overlapping requests to a never-created location *)
+  let multi_load := (1 <? jfZ "stress_loads" c) ||
+                    (1 <? jfZ "stress_loads_never" c) in  (* TTL never: overlapping requests share the pending instance *)
   let a := if ghost_bad || multi_load then
              mkAcc (a_reg a) (a_sys a) (a_k a) (a_diff a)
                    (match a_spec a with
